@@ -39,7 +39,7 @@ theorem hp_refresh_calls_src : hp_refresh_calls = "f.hashes.Reset,f.clearCache" 
 theorem hp_filterable_src :
     hp_filterable_returns = "netutil.AddrFamilyNone, true | fam, fam != netutil.AddrFamilyNone" := by decide
 /-- `custom.get`: reuse unless the cached time is strictly before the configuration's. -/
-theorem custom_get_conds_src : custom_get_conds = "!ok | item.updTime.Before(c.UpdateTime)" := by decide
+theorem custom_get_conds_src : custom_get_conds = "!ok | !item.updTime.Equal(c.UpdateTime)" := by decide
 theorem custom_get_disabled_src : custom_get_disabled_cond = "!c.Enabled || len(c.Rules) == 0" := by decide
 theorem custom_set_src : custom_set_args = "c.ID, &cacheItem{ updTime: c.UpdateTime, ruleList: rl, }" := by decide
 /-- `CloneForReq` (model `Old.cloneForReq`) resets the reply header with `SetReply`. -/
